@@ -19,6 +19,7 @@ func (w *World) payloadSeeds() map[string]string {
 		"bps":   {{To: f1, Bps: 100}},
 		"fixed": {{To: f2, Fixed: "7"}},
 		"five":  {{To: f1, Bps: 1}, {To: f2, Bps: 2}, {To: f1, Fixed: "1"}, {To: f2, Fixed: "2"}, {To: f1, Bps: 3}},
+		"twofixedsame": {{To: f1, Fixed: "5"}, {To: f1, Fixed: "6"}},
 	}
 	hypAll := Fwd{Kind: "hyp", Domain: 1, Token: w.TokenT0.Bytes(), Recipient: b32(5), Hook: w.HookH0.Bytes(), HookMeta: "0xabcd", GasLimit: "1", MaxFee: "1uusdc", Passthrough: []byte{1, 2}}
 	cctpAll := Fwd{Kind: "cctp", Domain: 0, MintRecipient: b32(9), Caller: b32(3), Passthrough: []byte{1}}
@@ -104,6 +105,25 @@ func (w *World) c14PacketLevel() []Pkt {
 		p := base
 		p.Memo = m
 		out = append(out, p)
+	}
+	// extreme-number families (sums / products at the top of the 256-bit range; same and different recipients)
+	half := "57896044618658097711785492504343953926634992332820282019728792003956564819968"
+	for _, fam := range [][]FeeSpec{
+		{{To: w.Fee1.String(), Fixed: half}, {To: w.Fee1.String(), Fixed: half}},
+		{{To: w.Fee1.String(), Fixed: half}, {To: strings.ToUpper(w.Fee1.String()), Fixed: half}},
+		{{To: w.Fee1.String(), Fixed: half}, {To: w.Fee2.String(), Fixed: half}},
+		{{To: w.Fee1.String(), Fixed: maxUint256Str}, {To: w.Fee1.String(), Fixed: "1"}},
+		{{To: w.Fee1.String(), Fixed: maxUint256Str}, {To: w.Fee1.String(), Bps: 1}},
+		{{To: w.Fee1.String(), Bps: 10000}, {To: w.Fee1.String(), Fixed: maxUint256Str}},
+		{{To: w.Fee1.String(), Fixed: maxUint256Str}, {To: w.Fee1.String(), Fixed: maxUint256Str}, {To: w.Fee1.String(), Fixed: maxUint256Str}},
+		{{To: w.Orb.String(), Fixed: half}, {To: w.Orb.String(), Fixed: half}},
+	} {
+		for _, coin := range [][2]string{{denomUSDC, "1"}, {denomUSDC, "1000"}, {denomBIG, maxUint256Str}, {denomBIG, half}} {
+			for _, f := range []Fwd{w.FwdInternal(w.Bob), w.FwdCCTP(0)} {
+				p := NewPkt("channel-0", coin[0], coin[1], orb, Memo(f, fam))
+				out = append(out, p)
+			}
+		}
 	}
 	// raw data
 	alpha := []byte(`{}[]":,a1 -` + "\x00")
